@@ -192,9 +192,10 @@ def extract(text, events):
     for ev in events:
         name = ".".join(ev)
         alnum = "".join(ch for ch in name if ch.isalnum() or ch == "_")
-        cands = [s for s in evsigs if s == "event_%s_sig" % alnum or (alnum != name and re.match(r"^event_%s_\d+_sig$" % re.escape(alnum), s))]
         if alnum == name:
-            cands = [s for s in cands if s == "event_%s_sig" % alnum]
+            cands = [s for s in evsigs if s == "event_%s_sig" % alnum]
+        else:
+            cands = [s for s in evsigs if re.match(r"^event_%s_\d+_sig$" % re.escape(alnum), s)]
         if len(cands) == 1:
             evmap.append({"sig": cands[0], "name": ev})
         elif len(cands) > 1:
